@@ -939,9 +939,12 @@ func vf19Case(o *vfOut, r *vfRand, desc string) {
 						continue
 					}
 				}
-			} else if _, done := x.commitAt[e.key]; !done && e.real(c) != "" {
-				// the oracle's subject is what the pool ACCEPTS on its verifying paths; forged evidence
-				// handed over by (trusted) consensus is outside the statement, keep to the re-add case
+			} else if _, done := x.commitAt[e.key]; !done {
+				// the oracle's subject is what the pool ACCEPTS on its verifying paths; evidence that
+				// (trusted) consensus could not have built - forged, or about a height it is not deciding
+				// (the thorough tier once handed over VALID evidence two heights above the state here,
+				// which isExpired's uint64 age then pruned: a false `pending-evidence-lost`) - is outside
+				// the statement: keep to the re-add of committed evidence
 				continue
 			}
 			var aerr error
